@@ -1,6 +1,6 @@
 """C12 — key derivation: guard, operand provenance and constants."""
 from ..core import operand_locals, def_sites
-from ..expr import expr_of_operand, call_arg_exprs, evaluate, atoms_of, result_kind_of_ret
+from ..expr import expr_of_operand, call_arg_exprs, evaluate, atoms_of, result_kind_of_ret, deep_repr
 from ..guards import edge_facts, facts_at, bounds, term_of
 from . import common as cm
 from . import consts
@@ -79,6 +79,16 @@ def run(ctx, rep):
     rep.ob("PROV", "salt <- subkey_id.to_le_bytes()", ok and bool(le), why, loc=ini.loc())
     ok, why = buffer_written_from(ini.args[3], lambda sb, c: ctxp in sb, 8)
     rep.ob("PROV", "personal <- context", ok, why, loc=ini.loc())
+    # each optional operand is passed unconditionally (Some(&buffer)) and depends only on its own source:
+    # key <- master key, salt <- subkey id, personal <- context (no cross-gating between them)
+    own = {1: ("key", {mk}), 2: ("salt", {sid}), 3: ("personal", {ctxp})}
+    for i, (nm, allowed) in own.items():
+        e = ax[i]
+        uncond = e.k == "agg" and e.a == "std::option::Option" and e.b == "Some"
+        back = f.backward_slice(operand_locals(ini.args[i])) & {sid, ctxp, mk, subkey}
+        rep.ob("PROV", "%s operand is unconditional and depends only on its own source" % nm, uncond and back <= allowed,
+               "%s operand is %s and depends on parameters %s" % (nm, "Some(..)" if uncond else deep_repr(e)[:70], sorted(f.local_name(x) for x in back)),
+               loc=ini.loc())
     out_root = cm.view_info(f, list(operand_locals(fin.args[1]))[0])
     rep.ob("PROV", "output -> subkey", out_root == (subkey, False), "finalize writes the whole subkey parameter", loc=fin.loc())
     st = cm.view_info(f, list(operand_locals(fin.args[0]))[0])[0]
